@@ -229,4 +229,58 @@ example : skipResponseHeader (fun _ => true) (fun _ _ => true) 0 9 [0, 0, 0, 7, 
 example : toInt32 (u32 ((replyHeader (fun _ _ => true) 3 9 (-2 ^ 31)).take 4)) = -2 ^ 31 := by decide
 example : toInt32 (u32 ((replyHeader (fun _ _ => false) 3 9 (2 ^ 31 - 1)).take 4)) = 2 ^ 31 - 1 := by decide
 
+/-! ### the int16 string-length bound of non-flexible versions (why a reply must not carry a string > 32767 bytes) -/
+/-- the int16 length prefix of a non-flexible string, as the reader sees it -/
+theorem int16_of_len (r : Reader) (pre rest : Bytes) (n : Nat) (hn : n < 65536)
+    (hb : r.buf = pre ++ (putU16 n ++ rest)) (hp : r.pos = pre.length) :
+    int16With read r = .ok (toInt16 n, { buf := r.buf, pos := r.pos + 2 }) := by
+  unfold int16With
+  have := read_at r pre (putU16 n) rest hb hp
+  have hl : ((putU16 n).length : Int) = 2 := rfl
+  rw [hl] at this
+  rw [this]
+  simp only [GoResult.bind, u16_put _ hn]
+
+/-- The int16 string-length bound of non-flexible versions, (a): up to 32767 bytes the wire form `int16 length ++ bytes`
+(`encodeNullableString`, what kmsg's AppendString/AppendNullableString write) reads back exactly. -/
+theorem nonflex_string_roundtrip (s rest : Bytes) (h : s.length ≤ 32767) :
+    nullableString { buf := encodeNullableString (some s) ++ rest, pos := 0 }
+      = .ok (some s, { buf := encodeNullableString (some s) ++ rest, pos := 2 + (s.length : Int) }) := by
+  have := nullableString_at { buf := encodeNullableString (some s) ++ rest, pos := 0 } [] rest (some s)
+    (fun x hx => by injection hx with hx; subst hx; omega) rfl rfl
+  unfold nullableString
+  rw [this]
+  simp only [encodeNullableString, List.length_append]
+  congr 3
+  show (0 : Int) + ((putU16 s.length).length + s.length : Nat) = 2 + (s.length : Int)
+  have : (putU16 s.length).length = 2 := rfl
+  rw [this]; push_cast; omega
+
+/-- (b): from 32768 to 65534 bytes the length prefix wraps to a negative int16 other than -1: the reader (any Kafka client)
+rejects the string — a reply carrying such a string (e.g. an error message built from a long request string) is NOT decodable. -/
+theorem nonflex_string_overflow_rejected (s rest : Bytes) (h : 32768 ≤ s.length ∧ s.length < 65535) :
+    nullableString { buf := encodeNullableString (some s) ++ rest, pos := 0 } = .err := by
+  unfold nullableString nullableStringWith
+  rw [int16_of_len { buf := encodeNullableString (some s) ++ rest, pos := 0 } [] (s ++ rest) s.length (by omega)
+    (by simp [encodeNullableString]) rfl]
+  simp only [GoResult.bind]
+  have h1 : ¬ (toInt16 s.length = -1) := by unfold toInt16; split <;> omega
+  have h2 : toInt16 s.length < 0 := by unfold toInt16; split <;> omega
+  simp only [h1, h2, if_false, if_true]
+
+/-- (c): at exactly 65535 bytes the prefix reads as -1 = "null": the reader returns no string and leaves all 65535 bytes in the
+stream, to be misread as the following fields. -/
+theorem nonflex_string_65535_reads_null (s rest : Bytes) (h : s.length = 65535) :
+    nullableString { buf := encodeNullableString (some s) ++ rest, pos := 0 }
+      = .ok (none, { buf := encodeNullableString (some s) ++ rest, pos := 2 }) := by
+  unfold nullableString nullableStringWith
+  rw [int16_of_len { buf := encodeNullableString (some s) ++ rest, pos := 0 } [] (s ++ rest) s.length (by omega)
+    (by simp [encodeNullableString]) rfl]
+  simp only [GoResult.bind]
+  have h1 : toInt16 s.length = -1 := by unfold toInt16; split <;> omega
+  simp only [h1, if_true]
+  rfl
+
+example : (encodeNullableString (some (List.replicate 3 7))) = [0, 3, 7, 7, 7] := by decide
+
 end KafVerif.C11
